@@ -100,6 +100,18 @@ def check_valid(pc, formula, want_model=True, timeout_ms=None, second_backend=Tr
     t0 = time.time()
     neg = z3.Not(formula)
     fs = list(pc) + [neg]
+    # stage A: only the first unfolding round (and the lemma instances): many obligations are already propositional
+    # consequences of the path condition; a small query keeps the solver out of the noise of the full instantiation
+    try:
+        ax0 = sym.instantiate_axioms(fs, rounds=1)
+        s0 = z3.Solver()
+        s0.set('timeout', 2000)
+        s0.add(*fs)
+        s0.add(*ax0)
+        if s0.check() == z3.unsat:
+            return 'proved', 'z3', time.time() - t0, None, s0
+    except z3.Z3Exception:
+        pass
     ax = sym.instantiate_axioms(fs)
     ax += sym.structural_axioms(fs + ax)
     ax += sym.str_elem_distinct()
